@@ -19,6 +19,7 @@ type Knobs struct {
 	UndefMode  int     // 0 all registered, 1 all undefined, 2 mixed
 	KeyLayout  int     // see genKeys
 	Sets       bool    // pre-built sets as constants / bindings
+	NoSetConst bool    // sets only as bindings (Dump of a set constant cannot be read back)
 	FailOp     bool    // a user operator that always fails is available
 	NowOp      bool    // a clock-reading user operator is available
 	PUnbound   float64 // chance that a variable is left out of the binding
@@ -115,7 +116,7 @@ func NewGen(r *Rng, k Knobs) *Gen {
 	cn := r.Perm(len(constNames))
 	for i := 0; i < k.NConsts; i++ {
 		ty := []Ty{TBool, TInt, TInt, TStr, TIntList, TStrList}[r.Intn(6)]
-		if k.Sets && r.P(0.3) {
+		if k.Sets && !k.NoSetConst && r.P(0.3) {
 			ty = []Ty{TIntSet, TStrSet}[r.Intn(2)]
 		}
 		name := constNames[cn[i]]
